@@ -162,6 +162,22 @@ func runCheck(cfg checkCfg) int {
 		vc := genFunction(ld, specs, fn, ct, GenOpts{Safety: true})
 		runs = append(runs, &funcRun{vc: vc, ct: ct})
 	}
+	// interface refinements whose contracts carry the property
+	for _, rf := range specs.Refinements {
+		ict := specs.Contracts[rf.Iface]
+		if ict == nil {
+			continue
+		}
+		rel := hasProp(ict.Props, cfg.prop)
+		for _, cl := range ict.Ensures {
+			if hasProp(cl.Props, cfg.prop) {
+				rel = true
+			}
+		}
+		if rel {
+			runs = append(runs, &funcRun{vc: genRefinement(ld, specs, rf)})
+		}
+	}
 	// lemmas
 	lemVC := genLemmas(ld, specs, cfg.prop)
 	if lemVC != nil {
@@ -190,6 +206,21 @@ func runCheck(cfg checkCfg) int {
 		}(r)
 	}
 	wg.Wait()
+	// an obligation nobody decided is retried once, alone, with a longer limit on all solvers, before it counts
+	retried := 0
+	for _, r := range runs {
+		for i, res := range r.results {
+			if res.Status == "undecided" {
+				retried++
+				wg.Add(1)
+				go func(r *funcRun, i int) {
+					defer wg.Done()
+					r.results[i] = solveObl(context.Background(), r.vc, r.results[i].Obl, cfg.timeoutMs*4, work, sem, true)
+				}(r, i)
+			}
+		}
+	}
+	wg.Wait()
 	solveSecs := time.Since(solveStart).Seconds()
 
 	known := loadKnown()
@@ -209,6 +240,7 @@ func runCheck(cfg checkCfg) int {
 		Solver  string            `json:"solver,omitempty"`
 		Answers map[string]string `json:"answers,omitempty"`
 		Pos     string            `json:"pos,omitempty"`
+		Secs    float64           `json:"secs,omitempty"`
 	}
 	var recs []oblRec
 	var violations []string
@@ -237,7 +269,7 @@ func runCheck(cfg checkCfg) int {
 		}
 		for _, res := range r.results {
 			o := res.Obl
-			rec := oblRec{Name: o.Name, Kind: o.Kind, Status: res.Status, Solver: res.Solver, Answers: res.Answers, Pos: o.Pos}
+			rec := oblRec{Name: o.Name, Kind: o.Kind, Status: res.Status, Solver: res.Solver, Answers: res.Answers, Pos: o.Pos, Secs: res.Secs}
 			recs = append(recs, rec)
 			if o.Vac {
 				nVac++
@@ -351,23 +383,23 @@ func runCheck(cfg checkCfg) int {
 		"wall_s":      time.Since(start).Seconds(),
 		"violations":  len(violations),
 		"coverage": map[string]any{
-			"obligations":              nObl,
-			"discharged":               nDis,
-			"checker_cmd":              fmt.Sprintf("bin/cedarvc check -prop %s -tier %s", cfg.prop, cfg.tier),
-			"trusted_base":             trusted,
-			"functions_under_contract": funcs,
-			"vacuity_queries":          nVac,
+			"obligations":               nObl,
+			"discharged":                nDis,
+			"checker_cmd":               fmt.Sprintf("bin/cedarvc check -prop %s -tier %s", cfg.prop, cfg.tier),
+			"trusted_base":              trusted,
+			"functions_under_contract":  funcs,
+			"vacuity_queries":           nVac,
 			"undecided_new_obligations": undecided,
 			"baseline_obligations_no_longer_generated": gone,
-			"known_findings_hit":       knownHits,
-			"contracts_missing_function": missing,
-			"samples":                  samples,
-			"obligation_results":       recs,
-			"solver_seconds":           solveSecs,
-			"load_seconds":             loadSecs,
-			"abstraction_notes":        noteList,
-			"assume_token_scan":        specs.Tokens,
-			"timeout_ms_per_obligation": cfg.timeoutMs,
+			"known_findings_hit":                       knownHits,
+			"contracts_missing_function":               missing,
+			"samples":                                  samples,
+			"obligation_results":                       recs,
+			"solver_seconds":                           solveSecs,
+			"load_seconds":                             loadSecs,
+			"abstraction_notes":                        noteList,
+			"assume_token_scan":                        specs.Tokens,
+			"timeout_ms_per_obligation":                cfg.timeoutMs,
 		},
 		"assumptions": trusted,
 	}
